@@ -2,6 +2,7 @@
 From Coq Require Import ZArith List Bool.
 From BV Require Import Lib.Cases Model.LaxSem Model.Restart Model.Pool
      Proofs.PoolJobs Proofs.PoolInv Proofs.PoolTick Proofs.PoolSup Proofs.PoolIdx.
+From BV Require Import Proofs.PoolRefuted.
 From BV Require Gen.G_pool_shape.
 From BV Require Lib.PyVal Gen.K_worker Model.Worker Proofs.WorkerProofs.
 Import ListNotations.
@@ -70,6 +71,17 @@ Print Assumptions C09_quota.
 Definition c09_cfg := mkcfg 3 None None None (Some 9) 1 false false.
 Definition c09_tr : list event :=
   [EExit 0 155; EExit 2 (-9); ETick; EGrow 1; ETick; EShrink 1; ETick].
+(* ---- not satisfied by the pinned tree (known finding C09:no-replacement-after-close): once
+   close() has been called exited workers are not replaced, whatever is still queued *)
+Theorem C09_back_to_size_refuted :
+  exists c tr,
+    wlist (run c tr) = [] /\ nprocs (run c tr) = 2
+    /\ length (filter (fun x => negb (ready x)) (jobs (run c tr))) = 3%nat
+    /\ wlist (fst (step (run c tr) ETick)) = []
+    /\ pstate (run c tr) = 1.
+Proof. exact no_replacement_after_close. Qed.
+Print Assumptions C09_back_to_size_refuted.
+
 Example C09_witness :
   let s := run c09_cfg c09_tr in
   (nprocs s, wlist s, used_idx s) = (3, [3; 4; 5], [0; 2; 3]).
